@@ -1,5 +1,5 @@
 import MpVerif.C15.Lemmas
-import MpVerif.C15.LemmasNested
+import MpVerif.C15.LemmasNestedCount
 import MpVerif.Gen.Signal
 /-!
 # C15 — an interrupt is never lost and never delivered with inconsistent state
@@ -520,6 +520,38 @@ theorem C15_nested_history_after_teardown (L : Layout) (md : Mode) (pre : List E
   obtain ⟨rfl, _, hne⟩ := sig_cbs md s sp hrun h d hcb
   have : s.handler = 0 := by cases pc <;> simp_all [PC.noCallbackExpected, InvN, normStop, Inv]
   exact hne this
+
+/-- **Third interrupt terminates, histories with nested deliveries at the places `NestAt`.**  In the histories the model
+    runs (`runN`: a second signal raised inside `write`, inside the callback or inside the re-arm — gaps 1 and 5 of the
+    handler, i.e. outside the two count windows of finding C15-nested-miscount), every interrupt is counted, nested ones
+    included (`weightN`): after any well-formed history, a well-formed continuation without a new constructor that
+    delivers three interrupts in total terminates the process.  So the miscount is confined to the two windows. -/
+theorem C15_nested_history_third_exits (md : Mode) (pre post : List EvN) (pc pc' : PC)
+    (_hpc : pcRunN Layout.current .idle pre = some pc) (hpost : pcRunN Layout.current pc post = some pc')
+    (hno : ∀ e ∈ post, e ≠ .step .cStop0)
+    (h3 : 3 ≤ weightN md (runN md init pre).1 post) :
+    (runN md init (pre ++ post)).1.halted ≠ none := by
+  intro hn
+  rw [runN_append] at hn
+  have hk := keeps_no_dStop1 Layout.current rfl (post.map EvN.plain) pc pc' (by rw [← pcRunN_plain]; exact hpost)
+  have hneu : ∀ e ∈ post, StopNeutralN e = true := by
+    intro e he
+    have a := hno e he
+    have b := hk e.plain (List.mem_map_of_mem he)
+    cases e with
+    | sig sp => rfl
+    | step m => cases m <;> simp_all [StopNeutralN, StopNeutral, EvN.plain]
+  have c := stopN_run md post _ hneu hn
+  have := c.2 (by omega)
+  omega
+
+/-- instance: registration (1,2); SIGINT with SIGTERM raised inside the callback (two interrupts), a work step, the
+    destructor's first two stores, then SIGTERM: three interrupts, the process has terminated -/
+example :
+    let pre := (ctorSteps Layout.current ++ regSteps Layout.current 1 2).map EvN.step
+    let post := [EvN.sig ⟨.int, some (.term, .inCallback)⟩, .step .work, .step .dIntr, .step .dH0, .sig ⟨.term, none⟩]
+    (runN .bsd init (pre ++ post)).1.halted ≠ none :=
+  C15_nested_history_third_exits .bsd _ _ (.live (some (1, 2))) .dH (by decide) (by decide) (by decide) (by decide)
 
 /-- a history with nested deliveries that meets all hypotheses: constructor, registration (1,2), SIGINT with SIGTERM
     nested inside the callback, a work step; then SIGTERM with SIGINT nested inside `write` is delivered … -/
